@@ -839,12 +839,23 @@ def t6(facts, tier):
         if not body:
             continue
         bufs = {}
+        guards_ = {}
         for x in walk(body):
             if x.get("k") == "LetS" and x["pat"].get("k") == "Bind" and x.get("init") is not None:
                 ty = x["pat"].get("ty") or x["init"].get("ty") or ""
                 m = re.match(r"\[" + re.escape(_MU) + r"<(.+)>; (\w+)\]$", ty)
                 if m:
                     bufs[x["pat"]["v"]] = (x, m.group(1), m.group(2))
+                else:
+                    # a local guard struct that owns the buffer: `Partial { data: uninit-array, initialized: 0 }`
+                    i0 = peel_block(peel(x["init"]))
+                    if i0.get("k") == "Adt":
+                        for fl in i0.get("fields", []):
+                            fty = (fl["e"].get("ty") or "")
+                            m2 = re.match(r"\[" + re.escape(_MU) + r"<(.+)>; (\w+)\]$", fty)
+                            if m2:
+                                bufs[x["pat"]["v"]] = (x, m2.group(1), m2.group(2))
+                                guards_[x["pat"]["v"]] = (i0.get("adt"), str(fl["f"]))
         if not bufs:
             continue
         pm = parent_map(body)
@@ -901,6 +912,22 @@ def t6(facts, tier):
                                       and not any(a.get("k") in ("Loop", "For") and a is not x and any(a is c for c in ancestors(b))
                                                   and any(x is c for c in ancestors(a)) for a in ancestors(b))]
                             fills.append({"loop": x, "assign": y, "idx": x["pat"]["v"], "full": full, "breaks": breaks})
+            for x in walk(body):
+                # `for slot in D.iter_mut() { *slot = MaybeUninit::new(..) }`
+                if x.get("k") == "For" and x["pat"].get("k") == "Bind" and _derives_from(x["iter"], {D}):
+                    itc = peel_block(peel(x["iter"]))
+                    whole_iter = itc.get("k") == "Call" and (callee(itc) or "").endswith("::iter_mut") and \
+                        not any(y.get("k") == "Call" and (callee(y) or "").endswith(("index_mut", "index", "::take", "::skip")) for y in walk(itc))
+                    for y in walk(x["body"]):
+                        if y.get("k") == "Assign":
+                            l = y["l"]
+                            while l.get("k") in ("Deref",) and peel(l).get("k") != "Var":
+                                l = l["e"]
+                            lv = peel(l)
+                            rc = callee(peel_block(y["r"])) or ""
+                            if lv.get("k") == "Var" and lv["v"] == x["pat"]["v"] and rc.startswith(_MU) and rc.endswith("::new"):
+                                breaks = [b_ for b_ in walk(x["body"]) if b_.get("k") == "Break"]
+                                fills.append({"loop": x, "assign": y, "idx": x["pat"]["v"], "full": whole_iter, "breaks": breaks})
             bulk = []
             for x in walk(body):
                 if x.get("k") == "Call" and (callee(x) or "").endswith("Read::read_exact") and _derives_from(x, names):
@@ -1025,3 +1052,34 @@ def t6(facts, tier):
                     yield ob(["C06"], "T6", key, "pass" if ok else ("undecided" if unknown_fill else "violation"), where(f, x),
                              f"{f['id']}: `{Dk}` is read as `[{elem}; {N}]` after a complete fill" if ok else
                              f"{f['id']}: `{Dk}` is read as an initialised `[{elem}; {N}]` but {why}")
+            # T6b: a drop guard that assumes `data[..count]` initialised: the count is raised only after the slot has been written
+            if D in guards_:
+                adt, bfield = guards_[D]
+                dropf = next((g for g in facts.fns.values() if (g.get("impl") or {}).get("trait") in ("core::ops::drop::Drop", "std::ops::Drop")
+                              and (g.get("impl") or {}).get("self_ty", "").split("<")[0] == (adt or "").split("<")[0] and g.get("body")), None)
+                counter = None
+                if dropf is not None:
+                    for y in walk(dropf["body"]):
+                        r = _range_of(y)
+                        if r and r[2] is not None and peel(r[2]).get("k") == "Field" and \
+                                any(z.get("k") == "Call" and "assume_init" in (callee(z) or "") for z in walk(dropf["body"])):
+                            counter = peel(r[2])["f"]
+                if counter is not None:
+                    n_inc = 0
+                    for fl_ in fills:
+                        blk = None
+                        for a_ in ancestors(fl_["assign"]):
+                            if a_.get("k") == "Block":
+                                blk = a_
+                                break
+                        for y in walk(fl_["loop"]["body"]):
+                            if y.get("k") == "AssignOp" and y["op"] == "AddAssign" and peel(y["l"]).get("k") == "Field" and peel(y["l"])["f"] == counter:
+                                n_inc += 1
+                                i_inc = stmt_in(blk, y) if blk else None
+                                i_asg = stmt_in(blk, fl_["assign"]) if blk else None
+                                ok = i_inc is not None and i_asg is not None and i_asg < i_inc
+                                yield ob(["C06"], "T6", f"{f['id']}:{Dk}:guard-count#{n_inc}", "pass" if ok else "violation", where(f, y),
+                                         f"{f['id']}: the drop guard's `{counter}` is raised after the slot has been written" if ok else
+                                         f"{f['id']}: the drop guard's `{counter}` is raised before the slot it counts has been written (the read "
+                                         f"that produces the value can still fail): on a malformed or truncated element the guard drops an "
+                                         f"uninitialised `{elem}`")
